@@ -22,6 +22,7 @@ import (
 	"verif/engine/fk"
 	"verif/engine/qx"
 	"verif/engine/refwire"
+	"verif/engine/seqx"
 	"verif/harness/clientops"
 	"verif/harness/hx"
 )
@@ -389,6 +390,10 @@ func suite(tier string) []qx.SuiteItem {
 	}
 	var items []qx.SuiteItem
 	add := func(s *qx.Scenario, bound int) { items = append(items, qx.SuiteItem{Scn: s, Bound: bound}) }
+	// the two small held-record scenarios come first: the budget of a run is re-divided among the scenarios that are
+	// left each time one ends, so the long fine-level scenarios below keep the share they had
+	add((&heldScn{name: "transport-held-records-concurrent-fetches", topics: []string{"a", "b"}, shapes: []recShape{{key: 1, val: 2}, {key: 0, val: 2}, {key: 2, val: 1}}}).scenario(), b)
+	add((&heldScn{name: "transport-held-records-fetch-then-call", topics: []string{"a", "b"}, shapes: []recShape{{key: 0, val: 1}, {key: 2, val: 2, hdr: true}}, then: map[string]string{"a": "list-offsets", "b": "metadata"}}).scenario(), b)
 	add((&connScn{name: "conn-fine-3-offsets", threads: [][]string{{"offset-at-12"}, {"offset-at-15"}, {"offset-at-18"}}, fine: true}).scenario(), b)
 	add((&connScn{name: "conn-fine-mixed", threads: [][]string{{"offset-at-12", "partitions-u"}, {"first", "offset-at-15"}}, fine: true}).scenario(), b)
 	add((&connScn{name: "conn-fine-fetch-vs-offsets", threads: [][]string{{"fetch"}, {"offset-at-15", "last"}}, fine: true}).scenario(), b)
@@ -401,5 +406,21 @@ func suite(tier string) []qx.SuiteItem {
 }
 
 func TestCheck(t *testing.T) {
-	qx.RunSuite(t, suite(os.Getenv("VERIF_TIER")))
+	tier := os.Getenv("VERIF_TIER")
+	items := suite(tier)
+	s := seqx.New(t)
+	if s.Replay != nil {
+		for _, it := range items {
+			if it.Scn.Name == s.Replay.Scenario {
+				qx.Replay(t, items, os.Getenv("VERIF_REPLAY"))
+				return
+			}
+		}
+	}
+	// held records of every shape against one other exchange at every position (shapes_test.go)
+	recordShapes(t, s, tier == "thorough")
+	if s.Replay == nil {
+		s.AddStats(qx.ExploreAll(t, items, s.Remaining())...)
+	}
+	s.Finish()
 }
